@@ -188,6 +188,10 @@ def replay_behaviour(steps, stats=None):
             probs += w.check_props() + w.final_log_check()
     except Mismatch as m:
         probs.append((m.key, m.what))
+        try:                # the real calls are atomic, so the world is idle: what the property itself says about it
+            probs += [p for p in w.check_props() if p not in probs]
+        except Exception:   # noqa
+            pass
     finally:
         w.close()
     return probs, {"events": len(w.ev), "reent": w.reent, "rows": len(w.rows), "nmsg": w.nmsg}
@@ -706,12 +710,23 @@ def reentrancy_finding(run, res):
     if cls != "reentrant-same-topic":
         run.violation("publish/order/" + cls, "TLC found an order violation on a history that is NOT re-entrant on the same topic", data)
     if not any(k.startswith("publish/order/") for k in keys):
-        raise MachineryError(f"TLC's counterexample does not reproduce on the real uros classes: {probs}")
-    report(run, probs, data)
+        # the real bus no longer follows the model on TLC's counterexample.  The verdict comes from the property
+        # (World.check_props: exactly once, to the right nodes, in order); a different event SHAPE alone (e.g. a
+        # queued delivery that repairs the order) is an implementation detail
+        prop = [(k, wh) for k, wh in probs if k.split("/")[0] in ("publish", "params", "logger")]
+        if prop:
+            report(run, prop, data, prefix="reentrant/")
+        else:
+            run.spec_drift("reentrant/replay", f"TLC's InOrder counterexample no longer reproduces on the real uros classes: {probs[:2]}")
+    else:
+        report(run, probs, data)
     # the two-topic cyclic wiring of the design document as a fixed script
     p2, got, reent = scripted_two_topic()
-    if got != [3, 1] or not reent:
-        raise MachineryError(f"scripted cyclic wiring behaved unexpectedly: {got} {p2}")
+    if sorted(got) != [1, 3]:
+        run.violation("reentrant/publish/exactly-once/script", f"cyclic two-topic wiring: the sink is owed messages 1 and 3 of topic b, it received {got}",
+                      {"engine": "script", "script": uros_rec.REENTRANT_SCRIPT, "received": got, "problems": [list(x) for x in p2[:3]]})
+    elif got != [3, 1] or not reent:
+        run.spec_drift("reentrant/script", f"scripted cyclic wiring no longer shows the known order inversion: {got} {p2}")
     report(run, p2, {"engine": "script", "script": uros_rec.REENTRANT_SCRIPT})
     run.count("reentrant_reproductions", 2)
 
